@@ -1,7 +1,34 @@
-(* C17 — lemmas about the model of base/dep (graph stage and phase split). *)
-From Coq Require Import List NArith ZArith Bool Arith Lia Permutation.
+(* C17 — lemmas about the model of base/dep (graph stage). *)
+From Coq Require Import List NArith ZArith Bool Arith Lia Permutation Sorted.
 From Verif Require Import Common.GoStr C17.Model.
 Import ListNotations.
+
+(* ---------- small facts ---------- *)
+Lemma str_eqb_refl a : str_eqb a a = true.
+Proof. apply str_eqb_eq. reflexivity. Qed.
+
+Lemma str_eqb_neq a b : str_eqb a b = false <-> a <> b.
+Proof.
+  split; intros H.
+  - intros E. apply str_eqb_eq in E. congruence.
+  - destruct (str_eqb a b) eqn:E; [|reflexivity]. apply str_eqb_eq in E. contradiction.
+Qed.
+
+Lemma str_in_In n l : str_in n l = true <-> In n l.
+Proof.
+  unfold str_in. rewrite existsb_exists. split.
+  - intros [x [H1 H2]]. apply str_eqb_eq in H2. subst. exact H1.
+  - intros H. exists n. split; [exact H|apply str_eqb_refl].
+Qed.
+
+Definition gnames (g : graph) : list str := map gname g.
+
+Lemma has_node_In g n : has_node g n = true <-> In n (gnames g).
+Proof.
+  unfold has_node, gnames. rewrite existsb_exists, in_map_iff. split.
+  - intros [nd [H1 H2]]. apply str_eqb_eq in H2. exists nd. split; assumption.
+  - intros [nd [H1 H2]]. exists nd. split; [exact H2|]. apply str_eqb_eq. exact H1.
+Qed.
 
 Lemma ins_pos_perm d l : Permutation (ins_pos d l) (d :: l).
 Proof.
@@ -14,4 +41,203 @@ Lemma sort_by_pos_perm l : Permutation (sort_by_pos l) l.
 Proof.
   induction l as [|d l IH]; simpl; [reflexivity|].
   rewrite ins_pos_perm. constructor. exact IH.
+Qed.
+
+Lemma sort_by_pos_In l d : In d (sort_by_pos l) <-> In d l.
+Proof.
+  split; apply Permutation_in; [|symmetry]; apply sort_by_pos_perm.
+Qed.
+
+Lemma ins_u_In x y l : In y (ins_u x l) <-> y = x \/ In y l.
+Proof.
+  induction l as [|z l IH]; simpl.
+  - intuition.
+  - destruct (str_cmp x z) eqn:E; simpl.
+    + apply str_cmp_eq in E. subst. intuition.
+    + intuition.
+    + rewrite IH. intuition.
+Qed.
+
+Lemma sort_unique_In y l : In y (sort_unique l) <-> In y l.
+Proof.
+  induction l as [|x l IH]; simpl; [reflexivity|].
+  rewrite ins_u_In, IH. intuition.
+Qed.
+
+(* ---------- well-formed graphs ---------- *)
+Definition nofwd (l : list decl) : list decl := filter (fun d => negb (is_fwd d)) l.
+
+Lemma nofwd_app a b : nofwd (a ++ b) = nofwd a ++ nofwd b.
+Proof. apply filter_app. Qed.
+
+Lemma nofwd_id l : Forall (fun d => is_fwd d = false) l -> nofwd l = l.
+Proof.
+  induction 1 as [|d l H _ IH]; simpl; [reflexivity|]. rewrite H. simpl. f_equal. exact IH.
+Qed.
+
+Lemma nofwd_none l : Forall (fun d => is_fwd d = true) l -> nofwd l = [].
+Proof.
+  induction 1 as [|d l H _ IH]; simpl; [reflexivity|]. rewrite H. simpl. exact IH.
+Qed.
+
+(* names are unique and every declaration sits in the node carrying its name *)
+Definition gwf (g : graph) : Prop :=
+  NoDup (gnames g) /\ forall nd d, In nd g -> In d (gdecls nd) -> dname d = gname nd.
+
+Lemma all_decls_In g d : In d (all_decls g) <-> exists nd, In nd g /\ In d (gdecls nd).
+Proof. unfold all_decls. rewrite in_flat_map. reflexivity. Qed.
+
+Lemma all_decls_remove_unresolvable g : all_decls (remove_unresolvable g) = all_decls g.
+Proof.
+  unfold remove_unresolvable, all_decls. generalize (has_node g). intros f.
+  induction g as [|nd g IH]; simpl; [reflexivity|]. rewrite IH. reflexivity.
+Qed.
+
+Lemma gnames_remove_unresolvable g : gnames (remove_unresolvable g) = gnames g.
+Proof.
+  unfold remove_unresolvable, gnames. rewrite map_map. reflexivity.
+Qed.
+
+Lemma gwf_remove_unresolvable g : gwf g -> gwf (remove_unresolvable g).
+Proof.
+  intros [H1 H2]. split.
+  - rewrite gnames_remove_unresolvable. exact H1.
+  - intros nd d Hin Hd. unfold remove_unresolvable in Hin. apply in_map_iff in Hin as [nd0 [E Hin]].
+    subst nd. simpl in *. apply H2; assumption.
+Qed.
+
+Lemma del_node_In g n nd : In nd (del_node g n) <-> In nd g /\ gname nd <> n.
+Proof.
+  unfold del_node. rewrite filter_In. rewrite negb_true_iff, str_eqb_neq. reflexivity.
+Qed.
+
+Lemma gnames_del_node_incl g n x : In x (gnames (del_node g n)) -> In x (gnames g) /\ x <> n.
+Proof.
+  unfold gnames. rewrite !in_map_iff. intros [nd [E H]]. apply del_node_In in H as [H1 H2]. subst x.
+  split; [exists nd; auto|exact H2].
+Qed.
+
+Lemma NoDup_map_filter {A B} (f : A -> B) p l : NoDup (map f l) -> NoDup (map f (filter p l)).
+Proof.
+  induction l as [|x l IH]; simpl; intros H; [constructor|].
+  inversion H; subst. destruct (p x); simpl; [|apply IH; assumption].
+  constructor; [|apply IH; assumption].
+  intros Hin. apply H2. apply in_map_iff in Hin as [y [E Hy]]. apply filter_In in Hy as [Hy _].
+  apply in_map_iff. exists y. auto.
+Qed.
+
+Lemma gwf_del_node g n : gwf g -> gwf (del_node g n).
+Proof.
+  intros [H1 H2]. split.
+  - apply NoDup_map_filter. exact H1.
+  - intros nd d Hin. apply del_node_In in Hin as [Hin _]. apply H2. exact Hin.
+Qed.
+
+Lemma del_node_perm g nd : NoDup (gnames g) -> In nd g ->
+  Permutation (all_decls g) (gdecls nd ++ all_decls (del_node g (gname nd))).
+Proof.
+  induction g as [|x g IH]; intros Hnd Hin; [destruct Hin|].
+  simpl in Hnd. inversion Hnd as [|? ? Hx Hg]; subst.
+  destruct Hin as [E|Hin].
+  - subst x. simpl. rewrite str_eqb_refl. simpl.
+    apply Permutation_app_head.
+    assert (del_node g (gname nd) = g) as ->; [|reflexivity].
+    unfold del_node. clear IH Hnd Hg. induction g as [|y g IH]; simpl; [reflexivity|].
+    simpl in Hx. destruct (str_eqb (gname y) (gname nd)) eqn:E.
+    + apply str_eqb_eq in E. exfalso. apply Hx. left. exact E.
+    + simpl. f_equal. apply IH. intros H. apply Hx. right. exact H.
+  - simpl. destruct (str_eqb (gname x) (gname nd)) eqn:E.
+    + apply str_eqb_eq in E. exfalso. apply Hx. rewrite E. apply in_map. exact Hin.
+    + simpl. rewrite (IH Hg Hin). rewrite !app_assoc. apply Permutation_app_tail. apply Permutation_app_comm.
+Qed.
+
+(* ---------- RemoveNodesNoDeps ---------- *)
+Lemma rnnd_fold_spec g best r :
+  fold_left rnnd_step g best = Some r ->
+  (best = Some r) \/ (In (snd r) g /\ gedges (snd r) = []).
+Proof.
+  revert best. induction g as [|nd g IH]; simpl; intros best H; [left; exact H|].
+  apply IH in H as [H|[H1 H2]]; [|right; split; [right; exact H1|exact H2]].
+  unfold rnnd_step in H. destruct (gedges nd) eqn:E; [|left; exact H].
+  destruct (first_lt (gdecls nd) (option_map fst best)); [|left; exact H].
+  inversion H; subst. right. simpl. split; [left; reflexivity|exact E].
+Qed.
+
+Lemma rnnd_spec g nd g' : remove_nodes_no_deps g = Some (nd, g') ->
+  In nd g /\ gedges nd = [] /\ g' = del_node g (gname nd).
+Proof.
+  unfold remove_nodes_no_deps. destruct (fold_left rnnd_step g None) as [[p n]|] eqn:E; [|discriminate].
+  intros H. inversion H; subst. apply rnnd_fold_spec in E as [E|[E1 E2]]; [discriminate|].
+  simpl in *. auto.
+Qed.
+
+(* ---------- maps over the graph that only shrink edge lists ---------- *)
+Definition same_shape (f : gnode -> gnode) : Prop :=
+  forall nd, gname (f nd) = gname nd /\ gdecls (f nd) = gdecls nd.
+
+Lemma shape_all_decls f g : same_shape f -> all_decls (map f g) = all_decls g.
+Proof.
+  intros Hf. unfold all_decls. induction g as [|nd g IH]; simpl; [reflexivity|].
+  rewrite IH. destruct (Hf nd) as [_ ->]. reflexivity.
+Qed.
+
+Lemma shape_gnames f g : same_shape f -> gnames (map f g) = gnames g.
+Proof.
+  intros Hf. unfold gnames. rewrite map_map. apply map_ext. intros nd. apply Hf.
+Qed.
+
+Lemma shape_gwf f g : same_shape f -> gwf g -> gwf (map f g).
+Proof.
+  intros Hf [H1 H2]. split.
+  - rewrite shape_gnames; assumption.
+  - intros nd d Hin Hd. apply in_map_iff in Hin as [nd0 [E Hin]]. subst nd.
+    destruct (Hf nd0) as [-> E2]. rewrite E2 in Hd. apply H2; assumption.
+Qed.
+
+Definition tf_map (names : list str) (nd : gnode) : gnode :=
+  if has_type nd then mkNode (gname nd) (gdecls nd) (filter (fun e => negb (str_in e names)) (gedges nd)) else nd.
+
+Lemma tf_map_shape names : same_shape (tf_map names).
+Proof. intros nd. unfold tf_map. destruct (has_type nd); simpl; auto. Qed.
+
+Lemma tf_fold_spec (P : decl -> Prop) g vs acc :
+  (forall nd d, In nd g -> In d (gdecls nd) -> is_type d = true -> P d) ->
+  Forall P (snd acc) -> Forall P (snd (fold_left (tf_step g) vs acc)).
+Proof.
+  intros HP. revert acc. induction vs as [|nc vs IH]; simpl; intros acc Hacc; [exact Hacc|].
+  apply IH. unfold tf_step. destruct (get_node g (fst nc)) as [nd|] eqn:E; [|exact Hacc].
+  assert (Hnd : In nd g).
+  { clear -E. induction g as [|x g IH]; simpl in E; [discriminate|].
+    destruct (str_eqb (gname x) (fst nc)); [inversion E; left; reflexivity|right; auto]. }
+  assert (Hd : forall d, In d (gdecls nd) -> is_type d = true -> P d) by (intros; eapply HP; eauto).
+  clear E HP IH. revert acc Hacc. induction (gdecls nd) as [|d l IHl]; simpl; intros acc Hacc; [exact Hacc|].
+  apply IHl; [intros d0 Hd0 Ht0; apply Hd; [right; exact Hd0|exact Ht0]|].
+  unfold tf_decl. destruct acc as [most lst]. simpl in *.
+  destruct (is_type d) eqn:Et; simpl; [|exact Hacc].
+  destruct (Nat.ltb (snd nc) most); [exact Hacc|]. simpl.
+  apply Forall_app. split; [destruct (Nat.ltb most (snd nc)); [constructor|exact Hacc]|].
+  constructor; [apply Hd; [left; reflexivity|exact Et]|constructor].
+Qed.
+
+Lemma remove_type_fwd_spec g buf g' : remove_type_fwd g = TfSome buf g' ->
+  g' = map (tf_map (names_of buf)) g /\
+  edge_count g' < edge_count g /\
+  Forall (fun e => exists t, In t (all_decls g) /\ is_type t = true /\ e = set_kind t KTypeFwd) buf.
+Proof.
+  unfold remove_type_fwd.
+  destruct (visit_all _ g _ _) as [c|]; [|discriminate].
+  destruct (fold_left (tf_step g) (visited c) (1, [])) as [most l] eqn:E.
+  destruct l as [|d l]; [discriminate|].
+  set (fwd := map (fun d => set_kind d KTypeFwd) (d :: l)).
+  unfold remove_deps_for_type. fold (tf_map (names_of fwd)). fold (edge_count g).
+  fold (edge_count (map (tf_map (names_of fwd)) g)).
+  destruct (Nat.eqb _ 0) eqn:Ez; [discriminate|].
+  intros H. inversion H; subst buf g'. clear H.
+  split; [reflexivity|]. split.
+  - apply Nat.eqb_neq in Ez. lia.
+  - assert (Hl : Forall (fun t => In t (all_decls g) /\ is_type t = true) (d :: l)).
+    { change (d :: l) with (snd (most, d :: l)). rewrite <- E. apply tf_fold_spec; [|constructor].
+      intros nd t H1 H2 H3. split; [apply all_decls_In; eauto|exact H3]. }
+    unfold fwd. apply Forall_forall. intros e He. apply in_map_iff in He as [t [Et Ht]].
+    rewrite Forall_forall in Hl. destruct (Hl t Ht). exists t. auto.
 Qed.
